@@ -134,12 +134,17 @@ def gen_pattern(rng, base, dirs, files, prev):
     rel = target[len(base) + 1:] if base else target
     comps = rel.split("/")
     is_dir = target in dirs
-    k = rng.below(13)
-    if k == 12 and len(comps) > 2:
+    k = rng.below(15)
+    if k >= 12 and len(comps) > 2:
         # two `**/` literals, one a suffix of the other, with opposite
-        # polarity on consecutive lines: last match wins
-        j1 = rng.range(2, len(comps) - 1)
-        j2 = rng.range(j1 + 1, len(comps))
+        # polarity on consecutive lines: last match wins (where the tree is
+        # deep enough the longer one is still shorter than the path, so that
+        # only the suffix matching of a glob set sees them)
+        if len(comps) > 3:
+            j1 = rng.range(2, len(comps) - 2)
+            j2 = rng.range(j1 + 1, len(comps) - 1)
+        else:
+            j1, j2 = 2, 3
         a = "**/" + "/".join(escape_lit(c, False) for c in comps[-j1:])
         b = "**/" + "/".join(escape_lit(c, False) for c in comps[-j2:])
         return rng.pick([a + "\n!" + b, b + "\n!" + a, "!" + a + "\n" + b])
